@@ -608,8 +608,8 @@ mut("edit_does_not_record_file_number", ["C02", "C01"], "ROLE-4", file="src/vers
 mut("recover_does_not_restore_prev_wal", ["C02"], "ROLE-4", file="src/versioning/version_set.rs",
     old="""        self.prev_wal_number = maybe_prev_wal_num;
 
-        // Drop the manifest reader""",
-    new="""        // Drop the manifest reader""")
+        // A manifest that ends""",
+    new="""        // A manifest that ends""")
 
 # ---- PAIR-8
 mut("reversal_does_not_step_inner_iterator", ["C04"], "PAIR-8", file="src/iterator.rs",
@@ -627,3 +627,80 @@ mut("merging_next_does_not_advance_current", ["C04"], "PAIR-8", file="src/versio
     old="""        self.advance_current_iterator();
         self.find_smallest();""",
     new="""        self.find_smallest();""", note="fails tests probably; checker test only", suite=False)
+
+# ---- D13 reverted, PAIR-9, C17 lock lifetime
+mut("revert_D13", ["C16", "C02"], "GRD-12", file="src/db.rs",
+    old="""        if self.options.reuse_log_files() && is_last_wal && num_compactions == 0 && is_wal_complete
+        {""",
+    new="""        if self.options.reuse_log_files() && is_last_wal && num_compactions == 0 {""",
+    note="append-mode reuse of a WAL / manifest with a torn tail (D13 reverted at both sites)")
+M[-1]["extra"] = [("src/versioning/version_set.rs", """        if is_manifest_complete && self.maybe_reuse_manifest(&manifest_file_path) {""",
+                   """        if self.maybe_reuse_manifest(&manifest_file_path) {""")]
+mut("boundary_inputs_not_added_for_compaction_level", ["C07"], "PAIR-9", file="src/compaction/manifest.rs",
+    old="""        let input_version = self.maybe_input_version.as_ref().unwrap();
+        CompactionManifest::add_boundary_inputs(
+            &input_version.write().element.files[self.level],
+            &mut self.input_files[0],
+        );
+        let mut compaction_level_key_range =""",
+    new="""        let input_version = self.maybe_input_version.as_ref().unwrap();
+        let mut compaction_level_key_range =""")
+mut("destroy_lock_not_kept", ["C17"], "ORD-15", file="src/db.rs",
+    old="""        let db_lock = match fs.lock_file(&lock_file_path) {""",
+    new="""        let _ = match fs.lock_file(&lock_file_path) {""",
+    note="needs the later drop(db_lock) removed too", suite=False)
+M[-1]["extra"] = [("src/db.rs", """        drop(db_lock);
+
+        log::info!("Deleting database lock file.");""", """        log::info!("Deleting database lock file.");""")]
+mut("lock_released_before_waiting_for_background_work", ["C17", "C09"], "ORD-12", file="src/db.rs",
+    old="""        self.is_shutting_down.store(true, Ordering::Release);
+        while db_fields_guard.background_compaction_scheduled {""",
+    new="""        self.is_shutting_down.store(true, Ordering::Release);
+        self.db_lock.take();
+        while db_fields_guard.background_compaction_scheduled {""")
+mut("revert_D14", ["C15"], "MAN-1", patch="revert_D14_manifest_reader_skips_damage.diff", note="manifest read with WAL (skip) semantics")
+
+# ---- ORD-8c / PAIR-10 / ORD-10 notify kind / OWN-5 / create mode / eof-always
+mut("recovered_sequence_is_first_of_last_batch", ["C06", "C02"], "ORD-8c", file="src/db.rs",
+    old="""            let last_transaction_seq_num =
+                transaction.get_starting_seq_number().unwrap() + (transaction.len() as u64) - 1;""",
+    new="""            let last_transaction_seq_num = transaction.get_starting_seq_number().unwrap();""")
+mut("failed_finalize_leaves_closed_builder", ["C09", "C08"], "PAIR-10", file="src/compaction/state.rs",
+    old="""            let finalize_result = self.table_builder_mut().finalize();
+            if let Err(finalize_err) = finalize_result {
+                maybe_error = Some(RainDBError::TableBuild(finalize_err));
+            }""",
+    new="""            self.table_builder_mut().finalize()?;""")
+mut("worker_notifies_one_waiter", ["C09"], "ORD-10", file="src/compaction/worker.rs",
+    old="""        background_work_finished_signal.notify_all();
+
+        // The previous compaction may have created too many files in a level, so check and""",
+    new="""        background_work_finished_signal.notify_one();
+
+        // The previous compaction may have created too many files in a level, so check and""")
+mut("filter_block_read_without_checksum", ["C15"], "OWN-5", file="src/tables/table.rs",
+    old="""                let raw_filter_block = Table::read_block_from_disk(file, &filter_block_handle)?;
+""",
+    new="""                let mut raw_filter_block: Vec<u8> = vec![0; filter_block_handle.get_size() as usize];
+                file.read_from(&mut raw_filter_block, filter_block_handle.get_offset() as usize)?;
+""")
+mut("new_manifest_opened_in_append_mode", ["C16"], "OWN-7", file="src/versioning/version_set.rs",
+    old="""                version_set.options.filesystem_provider(),
+                manifest_path.clone(),
+                false,
+            )?;""",
+    new="""                version_set.options.filesystem_provider(),
+                manifest_path.clone(),
+                true,
+            )?;""")
+mut("eof_during_reassembly_is_an_error", ["C16", "C12", "C02"], "unexpected-eof-is-always-end-of-log", file="src/logs.rs",
+    old="""                        ErrorKind::UnexpectedEof => return Ok((vec![], true)),""",
+    new="""                        ErrorKind::UnexpectedEof if !in_fragmented_record => return Ok((vec![], true)),""")
+mut("orphaned_last_fragment_completes_a_record", ["C15", "C12", "C16"], "TS-1", file="src/logs.rs",
+    old="""                        // A fragment without the start of its record is dropped
+                        if in_fragmented_record {
+                            data_buffer.extend(record.data);
+                            return Ok((data_buffer, false));
+                        }""",
+    new="""                        data_buffer.extend(record.data);
+                        return Ok((data_buffer, false));""")
